@@ -8,6 +8,10 @@ S2-S4/S6 events: drop, gc, evict, config flips, pickling, restart.
 
 from __future__ import annotations
 
+import pickle as _pickle
+
+import cloudpickle as _cloudpickle
+
 import copy as _copy
 import gc
 import pickle
@@ -117,6 +121,7 @@ class Machine:
         self.flips_since_lower = 0
         self.all_values = None  # set to {} to retain every key's value (C06)
         self._volatile_names = None
+        self.blobs = {}
 
     def bump(self, k, n=1):
         self.stats[k] = self.stats.get(k, 0) + n
@@ -396,6 +401,18 @@ class Machine:
             self.origin[ev["out"]] = self.origin.get(var)
             out["y"] = y
             out["nbytes"] = len(blob)
+        elif kind == "dump":
+            self.blobs[ev["slot"]] = (_cloudpickle.dumps(self.pool[var]), self.origin.get(var))
+        elif kind == "load":
+            if ev["slot"] in self.blobs:
+                blob, org = self.blobs[ev["slot"]]
+                with dask.config.set(ev.get("config") or {}):
+                    y = _pickle.loads(blob)
+                    _ = y.chunks, y.name  # first read under the receiver's configuration
+                self.pool[ev["out"]] = y
+                self.origin[ev["out"]] = org
+                self.bump("fault.load_shipped_copy")
+                out["y"] = y
         elif kind == "copy":
             x = self.pool[var]
             y = x.copy() if ev.get("how") == "copy" else _copy.copy(x)
